@@ -339,7 +339,11 @@ def dict_get(eng, d, key, default=KeyError):
         return default
     kz = to_z3(key, "int")
     present = eng.sbool(z3.Select(d.dom, kz))
-    if not eng.spec_mode:
+    if not eng.spec_mode and getattr(eng, "pure_mode", 0):
+        if default is not KeyError or d.default_factory is not None:
+            raise Unsupported("dict.get with default inside a symbolic comprehension")
+        eng.prove(eng.site("key-present"), present, "safety", "dict lookup inside a comprehension")
+    elif not eng.spec_mode:
         if default is KeyError and d.default_factory is None:
             if not eng.branch(present):
                 raise ProgExc(KeyError, "symbolic key")
